@@ -475,10 +475,15 @@ func run(p Prog) *prog.Result {
 			cur++
 			continue
 		case "reorg-prev", "reorg-cur":
-			name += fmt.Sprintf(" at clock %d)", clock)
-			m.notice(st.Kind, clock)
+			at := clock
+			if st.Late && clock > 0 {
+				at = clock - 1
+				m.classes["late-reorg-notice"] = true
+			}
+			name += fmt.Sprintf(" stamped slot %d, clock %d)", at, clock)
+			m.notice(st.Kind, at)
 			select {
-			case reorgCh <- duties.ReorgEvent{Slot: phase0Slot(clock), Previous: st.Kind == "reorg-prev", Current: st.Kind == "reorg-cur"}:
+			case reorgCh <- duties.ReorgEvent{Slot: phase0Slot(at), Previous: st.Kind == "reorg-prev", Current: st.Kind == "reorg-cur"}:
 			case <-done:
 				ok = false
 			}
